@@ -225,8 +225,9 @@ ODD_RANGES = ["", "-", "a-", "-a", "en--gb", "en-_-x", "en-\xe9-x", "en-\xb2-x",
               "en-x", "*", "*", "*-a", "en-*", "1-2", "a-b-c-d-e-f"]
 
 
-def rand_case_inputs(rng, allow_empty_tag=True):
-    pool = [rand_range(rng) for _ in range(rng.randrange(1, 5))]
+def rand_case_inputs(rng, allow_empty_tag=True, pool=None):
+    if pool is None:
+        pool = [rand_range(rng) for _ in range(rng.randrange(1, 5))]
     elems = []
     for _ in range(rng.choice([1, 1, 2, 2, 3, 3, 4, 5, 6])):
         if rng.random() < 0.15:
@@ -291,6 +292,193 @@ def cost(s):
 
 def clookup_args(parsed, tags, dr, dt, dkind):
     return "(%s, %s, %s, %s, %s)" % (cparsed(parsed), cstrs(tags), cost(dr), cost(dt), cbool(dkind == "none"))
+
+
+# =============================================================================== histories on one object
+# The statement speaks of the return values of basic_filtering(tags) and lookup(...) for a header; an object that
+# answers differently after some other call (because a method rewrote its state) breaks it on the second call.
+# ops: ["bf", tags] ["lookup", tags, dr, dt, dkind] ["best_match", offers, default_match] ["quality", offer]
+#      ["contains", offer] ["iter"] ["str"] ["repr"] ["copy", switch_to_copy] ["add", other] ["radd", other]
+def canon_any(v):
+    if isinstance(v, float):
+        return "float:%r" % v
+    if isinstance(v, (list, tuple)):
+        return [canon_any(x) for x in v]
+    if v is None or isinstance(v, (str, int, bool)):
+        return v
+    return "%s:%s" % (type(v).__name__, getattr(v, "header_value", None))
+
+
+def snapshot(h):
+    """Everything observable about the object's state."""
+    with warnings.catch_warnings():
+        warnings.simplefilter("ignore")
+        return [type(h).__name__, h.header_value, canon_any(h.parsed), str(h), repr(h), bool(h),
+                canon_any(getattr(h, "_parsed_nonzero", None))]
+
+
+def apply_hop(h, op):
+    """Returns (object to go on with, canonical answer)."""
+    t = op[0]
+    with warnings.catch_warnings():
+        warnings.simplefilter("ignore")
+        try:
+            if t == "bf":
+                return h, canon_any(h.basic_filtering(language_tags=list(op[1])))
+            if t == "lookup":
+                if op[1] is None:       # invalid/no-header signature allows omitting the tags
+                    r = h.lookup(default_range=op[2], default_tag=op[3], default=mk_default(op[4]))
+                else:
+                    r = h.lookup(language_tags=list(op[1]), default_range=op[2], default_tag=op[3], default=mk_default(op[4]))
+                return h, canon_any(r)
+            if t == "best_match":
+                offers = [tuple(o) if isinstance(o, list) else o for o in op[1]]
+                return h, canon_any(h.best_match(offers, default_match=op[2]))
+            if t == "quality":
+                return h, canon_any(h.quality(op[1]))
+            if t == "contains":
+                return h, (op[1] in h)
+            if t == "iter":
+                return h, canon_any(list(h))
+            if t == "str":
+                return h, str(h)
+            if t == "repr":
+                return h, repr(h)
+            if t == "copy":
+                c = h.copy()
+                return (c if op[1] else h), snapshot(c)
+            if t == "add":
+                return h, snapshot(h + op[1])
+            if t == "radd":
+                return h, snapshot(op[1] + h)
+        except Exception as e:  # noqa
+            return h, Err(type(e).__name__)
+    raise ValueError(op)
+
+
+def history_text(case):
+    return header_text([tuple(e) for e in case["elems"]]) if case.get("elems") is not None else case["header"]
+
+
+def oracle_history(case):
+    """Every answer in a history of calls on ONE header object must equal the answer of the same call on a brand-new
+    object built from the same header text, and the object's observable state (.parsed, header_value, str, repr, bool,
+    class) must read the same after every call; for valid headers basic_filtering/lookup answers are also compared
+    with the statement's reference."""
+    text = history_text(case)
+    via = case.get("via", "class")
+    h = make_header(text, via)
+    snap0 = snapshot(h)
+    parsed = parsed_of([tuple(e) for e in case["elems"]]) if case.get("elems") is not None else None
+    done = []
+    for i, op in enumerate(case["ops"]):
+        h, got = apply_hop(h, op)
+        _, want = apply_hop(make_header(text, via), op)
+        if got != want:
+            return ("history:%s-answer-depends-on-earlier-calls" % op[0],
+                    "header %r: call #%d %r on an object that already served %r returned %r, a fresh object returns %r"
+                    % (text, i, op, case["ops"][:i], got, want))
+        snap = snapshot(h)
+        if snap != snap0:
+            # go on to show what the change does to a later answer, if the history has one
+            later = ""
+            for j, op2 in enumerate(case["ops"][i + 1:], i + 1):
+                h, got2 = apply_hop(h, op2)
+                _, want2 = apply_hop(make_header(text, via), op2)
+                if got2 != want2:
+                    later = "; afterwards call #%d %r returns %r where a fresh object returns %r" % (j, op2, got2, want2)
+                    break
+            return ("history:%s-changes-the-header-object" % op[0],
+                    "header %r: after call #%d %r the object reads %r, before the history it read %r%s"
+                    % (text, i, op, snap[2:4], snap0[2:4], later))
+        if parsed is not None and type(h).__name__ == "AcceptLanguageValidHeader":
+            if op[0] == "bf" and not isinstance(got, Err):
+                ref = [[t, "float:%r" % (q / 1000.0)] for t, q in ref_basic_filtering(parsed, op[1])]
+                if got != ref:
+                    return ("history:bf-answer-wrong", "header %r: call #%d %r returned %r, the statement gives %r"
+                            % (text, i, op, got, ref))
+        done.append(op[0])
+    return None
+
+
+HIST_OFFERS = ["en", "en-gb", "fr", "de", "a", "a-b", "zh-hant", "x"]
+
+
+def rand_hop(rng, pool, nohdr=False):
+    t = rng.choice(["bf", "bf", "bf", "lookup", "lookup", "lookup", "best_match", "quality", "contains", "iter", "str",
+                    "repr", "copy", "add", "radd"])
+    _, tags, dr, dt, dk = rand_case_inputs(rng, pool=pool)
+    if t == "bf":
+        return ["bf", tags]
+    if t == "lookup":
+        return ["lookup", (None if nohdr and rng.random() < 0.3 else tags), dr, dt, dk]
+    if t == "best_match":
+        offers = [([x, rng.choice([0.3, 0.5, 1])] if rng.random() < 0.3 else x) for x in (tags or ["en"])]
+        return ["best_match", offers, rng.choice([None, "dflt"])]
+    if t in ("quality", "contains"):
+        return [t, rng.choice(tags + [derive(rng, rng.choice(pool))])]
+    if t == "copy":
+        return ["copy", rng.random() < 0.5]
+    if t in ("add", "radd"):
+        return [t, rng.choice(["fr;q=0.2", "", "x y", "de, en;q=0"])]
+    return [t]
+
+
+def rand_history(rng, maxops, model_ops_only=False):
+    pool = [rand_range(rng, 3) for _ in range(rng.randrange(1, 4))]
+    elems, _, _, _, _ = rand_case_inputs(rng, pool=pool)
+    if rng.random() < 0.5:
+        # make sure a range is repeated with a different quality somewhere
+        r, _ = rng.choice(elems)
+        elems.insert(rng.randrange(len(elems) + 1), (rand_case(rng, r), rng.choice(QS)))
+    ops = []
+    for _ in range(rng.randrange(2, maxops + 1)):
+        op = rand_hop(rng, pool)
+        while model_ops_only and op[0] not in ("bf", "lookup"):
+            op = rand_hop(rng, pool)
+        ops.append(op)
+    return {"kind": "history", "elems": [list(e) for e in elems], "ops": ops}
+
+
+def rand_history_nohdr(rng, maxops):
+    pool = [rand_range(rng, 3) for _ in range(2)]
+    return {"kind": "history", "elems": None, "header": rng.choice(INVALID_HEADERS + [None, None, None]),
+            "ops": [rand_hop(rng, pool, nohdr=True) for _ in range(rng.randrange(2, maxops + 1))]}
+
+
+def exhaustive_histories(depth):
+    """Every header of <= 3 elements over {a, b, *} x {q absent, 0, 0.5, 0.9} with at least one repeat, every sequence
+    of `depth` calls from a small universe."""
+    elem_u = [(r, q) for r in ["a", "b", "*"] for q in [None, ";q=0", ";q=0.5", ";q=0.9"]]
+    ops_u = [["bf", ["a", "b-x", "c"]], ["lookup", ["b", "A"], None, "dflt", "none"], ["lookup", ["c"], "b-x", None, "value"],
+             ["best_match", ["a", "b"], None], ["quality", "a"], ["contains", "b"], ["iter"], ["copy", True]]
+    for n in (2, 3):
+        for elems in itertools.product(elem_u, repeat=n):
+            if len({e[0] for e in elems}) == n:
+                continue                       # histories matter most where a range is repeated
+            for ops in itertools.product(ops_u, repeat=depth):
+                if not any(o[0] in ("bf", "lookup") for o in ops):
+                    continue
+                yield {"kind": "history", "elems": [list(e) for e in elems], "ops": [list(o) for o in ops]}
+
+
+def chop(op):
+    if op[0] == "bf":
+        return "(HFilter %s)" % cstrs(op[1])
+    return "(HLookup %s %s %s %s)" % (cstrs(op[1]), cost(op[2]), cost(op[3]), cbool(op[4] == "none"))
+
+
+def impl_history(case):
+    """[[answer, parsed after the call], ...] for a bf/lookup history on one real object (model's observation)."""
+    h = make_header(history_text(case))
+    out = []
+    for op in case["ops"]:
+        if op[0] == "bf":
+            a = impl_bf(h, op[1])
+        else:
+            a = impl_lookup(h, op[1], op[2], op[3], op[4])
+        out.append([a, [[r, canon_q(q)] for r, q in h.parsed]])
+    return out
 
 
 # =============================================================================== oracle
@@ -367,6 +555,8 @@ def oracle_case(case):
         if got != want:
             return ("nohdr:lookup-cascade", "%s(%r).lookup(%r, %r, %r, <%s>) = %r, expected %r" % (cls, text, tags, dr, dt, dk, got, want))
         return None
+    if kind == "history":
+        return oracle_history(case)
     if kind == "trunc":
         got, want = observe_truncations(case["range"], case.get("via_default_range", False)), truncations(case["range"].lower())
         if got != want:
@@ -536,6 +726,44 @@ def run(ctx):
         else:
             ctx.broken.append("correspondence truncations: specification and implementation disagree on %s" % json.dumps(case))
 
+    # histories of basic_filtering / lookup calls on ONE real object against the model's run_history: the answers and
+    # `.parsed` as it reads after every call (the model hands the parsed list on unchanged, C05_history_pure)
+    h_cases = []
+    for i in range(ctx.scale(400, 3000)):
+        case = rand_history(rng, 5, model_ops_only=True)
+        obs = impl_history(case)
+        parsed0 = parsed_of([tuple(e) for e in case["elems"]])
+        h_cases.append((cpair(cparsed(parsed0), clist(chop(o) for o in case["ops"])), obs, case))
+    bad = ctx.corr("history", IMPORTS, "history_val", h_cases, in_type="(parsed * list hop)")
+    for i in bad[:8]:
+        case = h_cases[i][2]
+        r = oracle_case(case)
+        if r:
+            ctx.fail(r[0], r[1], case, True, "corr")
+        else:
+            ctx.broken.append("correspondence history: model and implementation disagree on %s (impl gives %r)"
+                              % (json.dumps(case), h_cases[i][1]))
+
+    # ---------------------------------------------------------------- oracle: histories on one object
+    cnt = 0
+    for case in exhaustive_histories(2):
+        cnt += 1
+        run_oracle(ctx, "history-exhaustive", case)
+    if ctx.thorough:
+        r4 = ctx.sub_rng("hist-ex3")
+        for case in exhaustive_histories(3):
+            if r4.random() < 0.1:
+                cnt += 1
+                run_oracle(ctx, "history-exhaustive", case)
+    ctx.oracle_count("history-exhaustive", cnt, cnt)
+    r3 = ctx.sub_rng("history")
+    m3 = ctx.scale(6000, 80000)
+    for i in range(m3):
+        case = rand_history(r3, 6) if i % 5 else rand_history_nohdr(r3, 6)
+        case["via"] = "request" if i % 7 == 0 else "class"
+        run_oracle(ctx, "history", case)
+    ctx.oracle_count("history", m3, m3)
+
     # ---------------------------------------------------------------- oracle: exhaustive small universes
     cnt = nt = 0
     for case in exhaustive_cases(ctx.scale(2, 3), ctx.scale(2, 2), ctx.thorough):
@@ -577,7 +805,12 @@ def run(ctx):
         "oracle: every header of <=%d elements over 6 ranges x 3 qualities x every tag list of <=2 over 7 tags x %d default "
         "combinations, the truncation sequence of every range of <=%d subtags over {en,a,1,xy} observed through spy tags, "
         "and random cases through both AcceptLanguageValidHeader and Request.accept_language; non-trivial = non-empty "
-        "tag list" % (ctx.scale(2, 3), ctx.scale(5, 9), ctx.scale(5, 7)))
+        "tag list; histories: 2-6 calls (basic_filtering, lookup, best_match, quality, in, iter, str, repr, copy, +) on ONE "
+        "header object (valid headers with a repeated range in half the cases, invalid and missing headers), every "
+        "answer compared with the same call on a brand-new object and the object's state (.parsed, header_value, str, "
+        "repr, bool, class, _parsed_nonzero) compared with its initial state after every call; exhaustive: all headers "
+        "of 2-3 elements over {a,b,*} x 4 qualities containing a repeat x all call pairs from 8 calls"
+        % (ctx.scale(2, 3), ctx.scale(5, 9), ctx.scale(5, 7)))
     ctx.assume += [
         "language_tags is a list of str (generators/sets, which webob indexes with [index], are outside the statement)",
         "ranges, tags and default arguments use code points < 256 (str.lower/isalpha/isdigit are modelled there)",
